@@ -71,14 +71,14 @@ class SweepFixedPoint(Contract):
         st = State(L=L, M=M, hits=0)
         # the level holds a zero-defect point: f_j = F(u_j, t_j) and u_{m+1} = u0 + sum_j dt Q[m+1,j] f_j + tau_m.
         # Construct it by substitution: take f_j as the atoms F returns for (u_j, t_j) and define u_j through them.
-        dt, Q = L.dt, sw.coll.Qmat
+        dt, Q = L.params.dt, sw.coll.Qmat
         fs = [L.f[j] for j in range(M + 1)]
         for m in range(M):
             L.u[m + 1] = L.u[0] + vsum(dt * Q[m + 1, j] * ftot(fs[j]) for j in range(1, M + 1)) + (L.tau[m] if inst['tau'] else 0)
         from vc.ghost.problem import Rec
 
         for j in range(1, M + 1):
-            P.evals.append(Rec(f=cp(fs[j]), u=Vec(L.u[j]), t=L.time + dt * sw.coll.nodes[j - 1], k=len(P.evals)))
+            P.evals.append(Rec(f=cp(fs[j]), u=Vec(L.u[j]), t=L.status.time + dt * sw.coll.nodes[j - 1], k=len(P.evals)))
         install_unique_solve(P, st)
         st.old_u = [cp(u) for u in L.u]
         st.old_f = [cp(f) for f in L.f]
